@@ -65,6 +65,7 @@ impl FmtOut {
 
 thread_local! {
     static LAST_PANIC: RefCell<Option<String>> = const { RefCell::new(None) };
+    static IN_GUARD: std::cell::Cell<u32> = const { std::cell::Cell::new(0) };
 }
 
 /// Install a panic hook that records location + message per thread and stays quiet.
@@ -90,6 +91,10 @@ pub fn install_panic_hook() {
         } else {
             "<non-string payload>".into()
         };
+        if IN_GUARD.with(|g| g.get()) == 0 {
+            // a panic of the harness itself: make it visible
+            eprintln!("HARNESS PANIC at {}: {}", loc, msg);
+        }
         LAST_PANIC.with(|p| *p.borrow_mut() = Some(format!("{} | {}", loc, msg)));
     }));
 }
@@ -101,7 +106,10 @@ pub fn take_panic() -> String {
 }
 
 pub fn guarded<T>(f: impl FnOnce() -> T) -> Result<T, String> {
-    match catch_unwind(AssertUnwindSafe(f)) {
+    IN_GUARD.with(|g| g.set(g.get() + 1));
+    let r = catch_unwind(AssertUnwindSafe(f));
+    IN_GUARD.with(|g| g.set(g.get() - 1));
+    match r {
         Ok(v) => Ok(v),
         Err(_) => Err(take_panic()),
     }
